@@ -263,6 +263,23 @@ func Canon(e Expr) Ratio {
 			return Ratio{pmul(a.Num, b.Den), pmul(a.Den, b.Num)}.reduce()
 		}
 	case Call:
+		if x.Fn == "pow" && len(x.Args) == 2 {
+			if k, ok := intConst(x.Args[1]); ok && k >= -6 && k <= 6 {
+				b := Canon(x.Args[0])
+				r := rconst(big.NewRat(1, 1))
+				n := k
+				if n < 0 {
+					n = -n
+				}
+				for i := int64(0); i < n; i++ {
+					r = Ratio{pmul(r.Num, b.Num), pmul(r.Den, b.Den)}
+				}
+				if k < 0 {
+					r = Ratio{r.Den, r.Num}
+				}
+				return r.reduce()
+			}
+		}
 		return atom(CanonString(e))
 	case Ite:
 		return atom(CanonString(e))
@@ -320,6 +337,55 @@ func Equal(a, b Expr) bool {
 	return padd(l, r, -1).isZero()
 }
 
+// intConst: e is an integer constant (possibly negated).
+func intConst(e Expr) (int64, bool) {
+	switch x := e.(type) {
+	case Num:
+		if x.V.IsInt() && x.V.Num().IsInt64() {
+			return x.V.Num().Int64(), true
+		}
+	case Neg:
+		if k, ok := intConst(x.X); ok {
+			return -k, true
+		}
+	}
+	r := Canon0(e)
+	if r != nil && r.IsInt() && r.Num().IsInt64() {
+		return r.Num().Int64(), true
+	}
+	return 0, false
+}
+
+// Canon0 folds a closed arithmetic expression to a constant (nil if it is not one).
+func Canon0(e Expr) *big.Rat {
+	switch x := e.(type) {
+	case Num:
+		return x.V
+	case Neg:
+		if v := Canon0(x.X); v != nil {
+			return new(big.Rat).Neg(v)
+		}
+	case Bin:
+		l, r := Canon0(x.L), Canon0(x.R)
+		if l == nil || r == nil {
+			return nil
+		}
+		switch x.Op {
+		case "+":
+			return new(big.Rat).Add(l, r)
+		case "-":
+			return new(big.Rat).Sub(l, r)
+		case "*":
+			return new(big.Rat).Mul(l, r)
+		case "/":
+			if r.Sign() != 0 {
+				return new(big.Rat).Quo(l, r)
+			}
+		}
+	}
+	return nil
+}
+
 // CanonString is a canonical text of e (arguments of uninterpreted operators are canonicalised
 // recursively; commutative operators sort their arguments).
 func CanonString(e Expr) string {
@@ -328,9 +394,18 @@ func CanonString(e Expr) string {
 		return Canon(e).String()
 	case Call:
 		var as []string
-		for _, a := range x.Args {
-			as = append(as, CanonString(a))
+		var collect func(args []Expr)
+		collect = func(args []Expr) {
+			for _, a := range args {
+				// max(a, max(b, c)) = max(a, b, c)
+				if c, ok := a.(Call); ok && c.Fn == x.Fn && (x.Fn == "max" || x.Fn == "min") {
+					collect(c.Args)
+					continue
+				}
+				as = append(as, CanonString(a))
+			}
 		}
+		collect(x.Args)
 		switch x.Fn {
 		case "max", "min":
 			sort.Strings(as)
